@@ -366,6 +366,157 @@ def same_formula(a, b):
         and close(getattr(a, "thickness", None), getattr(b, "thickness", None))
 
 
+def _private_table():
+    """a private table whose element masses were revised (H = 1.25 u, the others by up to 3 %)"""
+    from periodictable import core, mass, density
+    core.PRIVATE_TABLES.pop("c11-private", None)
+    t = core.PeriodicTable("c11-private")
+    mass.init(t)
+    density.init(t)
+    for el in t:
+        if el.number == 1:
+            el._mass = 1.25
+        elif el.number > 1:
+            el._mass = el._mass * (1 + 0.005 * (el.number % 7))
+    return t
+
+
+def private_components(run: Run, api, me):
+    """components given as Formula objects over a private table with revised masses: the mixture has THEIR masses
+    (volumes) in the ratio of the quantities - with or without table= (which says how strings are read) - and
+    the string form read with that table means the same as the call"""
+    formula, mix_by_weight, mix_by_volume = api
+    from periodictable import core
+    rng = run.rng
+    priv = _private_table()
+    try:
+        for i in range(150 if run.tier == "quick" else 3000):
+            leaves = [gen_leaf(rng) for _ in range(rng.randint(2, 4))]
+            texts = [render_leaf(l, priv) for l in leaves]
+            by_vol = rng.random() < 0.5
+            kwmode = rng.choice(["none", "none", "private"])
+            pcts = None
+            if rng.random() < 0.4:
+                # percentages, so that the string form can be compared
+                cuts = sorted(rng.sample(range(1, 100), len(leaves) - 1))
+                pcts = [b - a for a, b in zip([0] + cuts, cuts)]
+                qs = [float(q) for q in pcts] + [100.0 - sum(pcts)]
+            else:
+                qs = [float(qtext(rng, -3, 3, allow_zero=False)) for _ in leaves]
+            inp = dict(components=texts, quantities=qs, by="volume" if by_vol else "weight",
+                       component_table="private (revised masses)", table_keyword=kwmode)
+            try:
+                comps = [formula(t, table=priv) for t in texts]
+            except Exception as e:  # noqa
+                run.violation("component over a private table raised %s: %s" % (type(e).__name__, str(e)[:80]), inp)
+                continue
+            if by_vol and any(f.density is None or f.density == 0 for f in comps):
+                by_vol = False
+                inp["by"] = "weight"
+            if any(exact_mass(f, priv, me) <= 0 for f in comps):
+                continue
+            run.count(key="priv" + repr(inp), nontrivial=True, tag="private-components")
+            fn = mix_by_volume if by_vol else mix_by_weight
+            args = [x for pair in zip(comps, qs) for x in pair]
+            before = [(pyside.struct_keys(f.structure), f.density, [id(a) for a in f.atoms]) for f in comps]
+            try:
+                r = fn(*args, **({"table": priv} if kwmode == "private" else {}))
+            except Exception as e:  # noqa
+                run.violation("mixture of private-table components raised %s: %s" % (type(e).__name__, str(e)[:80]), inp)
+                continue
+            if [(pyside.struct_keys(f.structure), f.density, [id(a) for a in f.atoms]) for f in comps] != before:
+                run.violation("mixing changed one of the component formulas it was given", inp)
+            oracle_mix(run, comps, qs, r, "V" if by_vol else "W", inp, priv, me)
+            if pcts is not None:
+                unit = "vol%" if by_vol else "wt%"
+                text = " // ".join(["%d%s %s" % (q, unit, t) for q, t in zip(pcts, texts[:-1])] + [texts[-1]])
+                try:
+                    f = formula(text, table=priv)
+                except Exception as e:  # noqa
+                    run.violation("mixture string over a private table raised %s" % type(e).__name__,
+                                  dict(inp, string=text))
+                    continue
+                if not same_formula(f, r):
+                    run.violation("string form (read with the private table) differs from the corresponding call on "
+                                  "Formula components of that table", dict(inp, string=text),
+                                  string_result=str(pyside.struct_keys(f.structure)), string_density=f.density,
+                                  call_result=str(pyside.struct_keys(r.structure)), call_density=r.density)
+    finally:
+        core.PRIVATE_TABLES.pop("c11-private", None)
+
+
+def scaled_unit_strings(run: Run, tbl, formula):
+    """'the result does not depend on how each component's formula unit is scaled', in the string forms: a component
+    written with a leading multiplier ('5g 2H2O // 5g NaCl', '1nm 3Fe // 3nm Ni', '30wt% 2H2O // NaCl') is the same
+    mixture as without it, and is accepted wherever the plain spelling is"""
+    rng = run.rng
+    flat_leaves = [l for l in LEAVES]
+    for i in range(200 if run.tier == "quick" else 4000):
+        kind = rng.choice("AALLWV")
+        n = rng.randint(2, 3)
+        leaves = [("C",) + tuple(rng.choice(flat_leaves)) for _ in range(n)]
+        if kind in "LV":
+            # every component needs a density
+            leaves = [l if (l[2] or len(l[1]) == 1) and l[1][0][1][0] != 86 else
+                      ("C", [(2, (1, 0, 0)), (1, (8, 0, 0))], ("i", 1)) for l in leaves]
+        mults = [rng.choice(["", "2", "3", "3.2", ".5", "12", "0.25"]) for _ in leaves]
+        if not any(mults):
+            mults[rng.randrange(n)] = rng.choice(["2", "3.2", ".5"])
+        gap = [rng.choice([" ", " ", "  "]) for _ in leaves]
+        quant = []
+        for j in range(n):
+            if kind == "A":
+                quant.append(qtext(rng, -3, 3, allow_zero=False) + sp(rng) + rng.choice(MASS_U + VOL_U))
+            elif kind == "L":
+                quant.append(qtext(rng, -3, 3, allow_zero=False) + sp(rng) + rng.choice(LEN_U))
+            elif j < n - 1:
+                quant.append("%d%s" % (rng.randint(1, 90 // n), rng.choice(W_FIRST if kind == "W" else V_FIRST)
+                                       if j == 0 else "%"))
+            else:
+                quant.append(None)
+
+        # GENUINE-DEFECT-CANDIDATE: after a percentage whose keyword ends the token without the grammar's trailing
+        # `space` - the bare '%' of a later component and the '%wt' / '%vol' order (`(percent + weight) | (weight +
+        # percent) + space` binds the `+ space` to the second alternative only) - a blank followed by a leading
+        # multiplier is rejected on the unmodified library: '20wt% H2O // 10% 2NaCl // Fe', '20%wt 2H2O // NaCl'
+        # raise ParseException while '20wt% 2H2O // 10% NaCl // Fe' parses.  The multiplier is not generated there.
+        for j in range(n):
+            if quant[j] is not None and kind in "WV" and quant[j].lstrip("0123456789").startswith("%"):
+                mults[j] = ""
+        if not any(mults):
+            mults[n - 1] = rng.choice(["2", "3.2", ".5"])
+
+        def spell(scaled):
+            out = []
+            for j, l in enumerate(leaves):
+                body = (mults[j] if scaled else "") + render_leaf(l, tbl)
+                out.append(body if quant[j] is None else quant[j].rstrip() + gap[j] + body)
+            return " // ".join(out)
+        plain, scaled = spell(False), spell(True)
+        inp = dict(string=scaled, plain=plain)
+        run.count(key="scaled-string" + scaled, nontrivial=True, sample=scaled if len(scaled) < 200 else None,
+                  tag="unit-scaling-string")
+        res = []
+        for text in (plain, scaled):
+            try:
+                f = formula(text)
+                res.append(({pyside.key_of(x): v for x, v in f.mass_fraction.items()}, f.density,
+                            getattr(f, "total_mass", None), getattr(f, "thickness", None)))
+            except Exception as e:  # noqa
+                res.append("raises %s" % type(e).__name__)
+        a, b = res
+        if isinstance(a, str) or isinstance(b, str):
+            if isinstance(a, str) != isinstance(b, str):
+                run.violation("a mixture string with a component written with a leading multiplier %s, without the "
+                              "multiplier it %s" % (b if isinstance(b, str) else "works", a if isinstance(a, str) else "works"),
+                              inp)
+            continue
+        if set(a[0]) != set(b[0]) or any(not close(a[0][x], b[0][x], rel=1e-9, abs_=1e-15) for x in a[0]) \
+                or not close(a[1], b[1]) or not close(a[2], b[2]) or not close(a[3], b[3]):
+            run.violation("rescaling a component's formula unit in a mixture string changes the mixture", inp,
+                          plain_density=a[1], scaled_density=b[1])
+
+
 def run(run: Run) -> int:
     pt = import_repo()
     from periodictable.formulas import formula, mix_by_weight, mix_by_volume
@@ -516,6 +667,8 @@ def run(run: Run) -> int:
                     or not close(ref[1], got[1]) or not close(ref[2], got[2]):
                 run.violation("spelling the single-element component %r instead of %r changes the mixture" % (sp, spellings[0]), inp)
                 break
+    scaled_unit_strings(run, tbl, formula)
+    private_components(run, api, me)
     return run.finish(RULE, assumptions=[
         "two models meet at the mixture strings: Model/Mix.lean evaluates the expression a string was rendered "
         "from (semantic actions), Model/GrammarMix.lean `parseTop` reads the string itself to a term "
